@@ -669,6 +669,61 @@ fn mode_analyze(case: &Value, out: &mut Vec<Value>) {
     }
 }
 
+// ------------------------------------------------------------------ C15 / C18: everything translate and simplify print for a program
+fn mode_outputs(case: &Value, out: &mut Vec<Value>) {
+    let id = s(case, "id");
+    let text = s(case, "prog");
+    let program: asp::Program = match text.parse() {
+        Ok(p) => p,
+        Err(e) => {
+            out.push(json!({"id":id,"kind":"reject","text":text,"error":format!("{e}")}));
+            return;
+        }
+    };
+    let mut texts: Vec<Value> = Vec::new();
+    let r = guarded(|| {
+        let mut v: Vec<(String, fol::Theory)> = Vec::new();
+        let tau = program.clone().tau_star();
+        v.push(("tau-star".into(), tau.clone()));
+        v.push(("mu".into(), program.clone().mu()));
+        if let Some(n) = program.clone().natural() {
+            v.push(("natural".into(), n));
+        }
+        v.push(("gamma".into(), tau.clone().gamma()));
+        if let Some(c) = tau.clone().completion(IndexSet::new()) {
+            v.push(("completion".into(), c.clone()));
+            for pf in ["intuitionistic", "ht", "classic"] {
+                let mut simp = verif::portfolio(pf).unwrap().into_iter().compose();
+                let t: fol::Theory = c.clone().into_iter().map(|f| f.apply_fixpoint(&mut simp)).collect();
+                v.push((format!("simplify-{pf}-completion"), t));
+            }
+        }
+        for pf in ["intuitionistic", "ht", "classic"] {
+            let mut simp = verif::portfolio(pf).unwrap().into_iter().compose();
+            let t: fol::Theory = tau.clone().into_iter().map(|f| f.apply_fixpoint(&mut simp)).collect();
+            v.push((format!("simplify-{pf}-tau-star"), t));
+        }
+        v
+    });
+    match r {
+        Err(p) => out.push(json!({"id":id,"kind":"panic","text":text,"panic":p})),
+        Ok(v) => {
+            for (what, theory) in v {
+                // feed the printed theory back: it must be accepted and be the theory that was printed
+                let t = theory.to_string();
+                let back = guarded(|| t.parse::<fol::Theory>());
+                let reparse = match back {
+                    Err(p) => json!({"stage":"parse2","problem":p}),
+                    Ok(Err(e)) => json!({"stage":"parse2","problem":format!("{e}").lines().next().unwrap_or("").to_string()}),
+                    Ok(Ok(t2)) => json!({"stage":"done","tree2":LooseRanks::theory(&t2),"text3":t2.to_string()}),
+                };
+                texts.push(json!({"what":what,"text":t,"tree1":LooseRanks::theory(&theory),"reparse":reparse}));
+            }
+            out.push(json!({"id":id,"kind":"outputs","text":text,"program_text":program.to_string(),"texts":texts}));
+        }
+    }
+}
+
 fn main() {
     let args: Vec<String> = std::env::args().collect();
     if args.len() != 4 {
@@ -696,6 +751,7 @@ fn main() {
             "tptp" => mode_tptp(&case, &mut out),
             "roundtrip" => mode_roundtrip(&case, &mut out),
             "analyze" => mode_analyze(&case, &mut out),
+            "outputs" => mode_outputs(&case, &mut out),
             m => {
                 eprintln!("harness: unknown mode {m}");
                 std::process::exit(2);
